@@ -533,10 +533,117 @@ struct Res {
     /// implementation lookup for every pc+1 as `file:line:func` ids
     locs: Vec<String>,
     crash: Option<String>,
+    /// immediates expanded into push + plain instruction
+    expanded: usize,
 }
 
 fn render_table(t: &[(u32, u32)]) -> String {
     if t.is_empty() { "-".into() } else { t.iter().map(|p| format!("{}:{}", p.0, p.1)).collect::<Vec<_>>().join(",") }
+}
+
+fn imm_constant(t: &str) -> Option<(bool, String)> {
+    let name = t.split('(').next().unwrap_or("");
+    let is_float = name == "PushFloat" || name.ends_with("FloatImm");
+    let is_int = name == "PushInt" || name == "StoreOffsetImm" || name == "ArrayPushIntImm" || name == "ModuloImm" || name.ends_with("IntImm");
+    if is_float {
+        let a = t.find('"')?;
+        let b = t.rfind('"')?;
+        if b > a { Some((true, t[a + 1..b].to_string())) } else { None }
+    } else if is_int {
+        let last = t.trim_end_matches(')').rsplit(|c| c == ',' || c == '(').next()?.trim();
+        last.parse::<i64>().ok().map(|v| (false, v.to_string()))
+    } else {
+        None
+    }
+}
+
+/// constants whose pool index (order of first occurrence, as `gather_constants` numbers them) exceeds 16 bits
+fn late_constants(lines: &[String]) -> std::collections::HashSet<(bool, String)> {
+    let (mut ni, mut nf) = (0usize, 0usize);
+    let mut seen = std::collections::HashSet::new();
+    let mut late = std::collections::HashSet::new();
+    for l in lines {
+        if !l.starts_with("I ") {
+            continue;
+        }
+        let Some(t) = l.splitn(5, ' ').nth(4) else { continue };
+        if let Some(c) = imm_constant(t) {
+            if seen.insert(c.clone()) {
+                let idx = if c.0 { nf += 1; nf - 1 } else { ni += 1; ni - 1 };
+                if idx > 65535 {
+                    late.insert(c);
+                }
+            }
+        }
+    }
+    late
+}
+
+fn is_late_imm(t: &str, late: &std::collections::HashSet<(bool, String)>) -> bool {
+    let name = t.split('(').next().unwrap_or("");
+    name.ends_with("Imm") && imm_constant(t).map(|c| late.contains(&c)).unwrap_or(false)
+}
+
+/// multi-file program with more than 65536 distinct constants: immediates with late constants (expanded by
+/// `expand_immediates`) come BEFORE the failing sites and the call sites of every frame
+fn big_pool_prog(variant: usize) -> Prog {
+    let mut m = FileSrc { name: "main.abra".into(), lines: vec![] };
+    let mut h = FileSrc { name: "helper.abra".into(), lines: vec![] };
+    let mut lf = FileSrc { name: "leaf.abra".into(), lines: vec![] };
+    let elems: Vec<String> = (0..65600).map(|i| i.to_string()).collect();
+    m.push("use helper");
+    m.push("use leaf");
+    m.push(format!("let big = [{}]", elems.join(", ")));
+    m.push("let n = big.len()");
+    m.push("let z = n - 65600");
+    m.push("println(n + 700001)");
+    m.push("println(scale(700007, 2))");
+    let call_main = m.push("let r = compute(z)");
+    m.push("println(r)");
+    h.push("use leaf");
+    h.push("fn compute(x: int) -> int {");
+    h.push("  let a = x + 700002");
+    h.push("  let b = a * 700003");
+    let call_compute = h.push("  inner(x) + b");
+    h.push("}");
+    h.push("fn inner(x: int) -> int {");
+    h.push("  let c = x + 700004");
+    h.push("  let d = c - 700005");
+    let (call_inner, fail_inner);
+    if variant == 0 {
+        call_inner = h.push("  scale(x, d)");
+        fail_inner = 0;
+    } else {
+        h.push("  let ok = scale(700008, d)");
+        h.push("  let arr = [1, 2, 3]");
+        fail_inner = h.push("  arr[x + 700009 - 700006]");
+        call_inner = 0;
+    }
+    h.push("}");
+    lf.push("fn scale(x: int, d: int) -> int {");
+    lf.push("  let e = d + 700006");
+    let fail_leaf = lf.push("  let q = e / x");
+    lf.push("  q");
+    lf.push("}");
+    let mut chain = vec![];
+    let kind_line;
+    if variant == 0 {
+        kind_line = "error: division by zero";
+        chain.push(Frame { file: "leaf.abra".into(), lo: fail_leaf, hi: fail_leaf, func: "scale".into() });
+        chain.push(Frame { file: "helper.abra".into(), lo: call_inner, hi: call_inner, func: "inner".into() });
+    } else {
+        kind_line = "error: indexed past the end of an array";
+        chain.push(Frame { file: "helper.abra".into(), lo: fail_inner, hi: fail_inner, func: "inner".into() });
+    }
+    chain.push(Frame { file: "helper.abra".into(), lo: call_compute, hi: call_compute, func: "compute".into() });
+    chain.push(Frame { file: "main.abra".into(), lo: call_main, hi: call_main, func: "<main>".into() });
+    Prog {
+        main: m.text(),
+        extra: vec![("helper.abra".into(), h.text()), ("leaf.abra".into(), lf.text())],
+        kind_line: kind_line.into(),
+        chain,
+        tags: vec!["ctx:big-pool".into()],
+    }
 }
 
 fn exec(p: &Prog) -> Res {
@@ -552,17 +659,25 @@ fn exec(p: &Prog) -> Res {
         };
         let d = abra_core::verif_asm::dump_program(&prog);
         let last = tr.last().cloned().unwrap_or_default();
-        let lines: Vec<String> = last
-            .iter()
-            .map(|l| {
-                if l.starts_with("L ") {
-                    "L".to_string()
-                } else {
-                    let w: Vec<&str> = l.splitn(5, ' ').collect();
-                    format!("{}:{}:{}", w[1], w[2], w[3])
+        // The location tables are built from the FINAL instruction list: after `optimize`, immediates whose
+        // constant has no 16-bit pool index are expanded into push + plain instruction, both carrying the
+        // annotation of the original (`expand_immediates`). The model's input is that final list.
+        let late = late_constants(&last);
+        let mut expanded = 0usize;
+        let mut lines: Vec<String> = vec![];
+        for l in &last {
+            if l.starts_with("L ") {
+                lines.push("L".to_string());
+            } else {
+                let w: Vec<&str> = l.splitn(5, ' ').collect();
+                let ann = format!("{}:{}:{}", w[1], w[2], w[3]);
+                if is_late_imm(w[4], &late) {
+                    lines.push(ann.clone());
+                    expanded += 1;
                 }
-            })
-            .collect();
+                lines.push(ann);
+            }
+        }
         let tables = format!(
             "files={} lines={} funcs={}",
             render_table(&d.filename_table),
@@ -579,12 +694,12 @@ fn exec(p: &Prog) -> Res {
             let ni = d.function_name_arena.iter().position(|x| *x == func).map(|i| i.to_string()).unwrap_or("?".into());
             locs.push(format!("{fi}:{l}:{ni}"));
         }
-        Ok((lines, tables, locs))
+        Ok((lines, tables, locs, expanded))
     }));
     match r {
-        Ok(Ok((lines, tables, locs))) => Res { run, lines, tables, locs, crash: None },
-        Ok(Err(e)) => Res { run, lines: vec![], tables: String::new(), locs: vec![], crash: Some(e) },
-        Err(e) => Res { run, lines: vec![], tables: String::new(), locs: vec![], crash: Some(panic_msg(e)) },
+        Ok(Ok((lines, tables, locs, expanded))) => Res { run, lines, tables, locs, crash: None, expanded },
+        Ok(Err(e)) => Res { run, lines: vec![], tables: String::new(), locs: vec![], crash: Some(e), expanded: 0 },
+        Err(e) => Res { run, lines: vec![], tables: String::new(), locs: vec![], crash: Some(panic_msg(e)), expanded: 0 },
     }
 }
 
@@ -632,6 +747,10 @@ fn main() {
     // hard probe: a frame with more than 16384 slots (offsets beyond the 15-bit register range are reached
     // with LoadOffset/StoreOffset only, D90): the failing line and the call site are still the right ones
     progs.insert(0, ("big_frame", big_frame_prog(16500)));
+    // hard probes: constant pool beyond 16 bits, so that `expand_immediates` lengthens the instruction list
+    // before the failing sites and call sites (the tables must be built from the final list)
+    progs.insert(0, ("big_pool", big_pool_prog(0)));
+    progs.insert(0, ("big_pool", big_pool_prog(1)));
     let results = par_map(&progs, |(_, p)| exec(p));
     for (idx, ((kind, p), r)) in progs.iter().zip(results).enumerate() {
         ctx.count(&format!("kind:{kind}"));
@@ -641,7 +760,10 @@ fn main() {
             ctx.count(t);
         }
         let describe = || {
-            let mut s = format!("--- main.abra\n{}", p.main);
+            let clip = |t: &str| -> String {
+                t.lines().map(|l| if l.len() > 300 { format!("{} ...({} characters)", &l[..120], l.len()) } else { l.to_string() }).collect::<Vec<_>>().join("\n") + "\n"
+            };
+            let mut s = format!("--- main.abra\n{}", clip(&p.main));
             for (n, t) in &p.extra {
                 s.push_str(&format!("--- {n}\n{t}"));
             }
@@ -696,6 +818,10 @@ fn main() {
         let joined = r.lines.join(" ");
         ctx.case(format!("srcmap build {joined} #p{idx}"), r.tables.clone());
         ctx.case(format!("srcmap locs {joined} #p{idx}"), r.locs.join(" "));
+        *ctx.hist.entry("expanded-immediates".into()).or_insert(0) += r.expanded as u64;
+        if *kind == "big_pool" && r.expanded < 5 {
+            ctx.spec_fail(format!("program #{idx} (big_pool): only {} immediates carry a constant beyond the 16-bit pool index; the probe no longer reaches expand_immediates", r.expanded));
+        }
         let anns: Vec<&String> = r.lines.iter().filter(|l| *l != "L").collect();
         if anns.len() != r.locs.len() {
             ctx.spec_fail(format!("program #{idx}: {} instructions in the optimized assembly, {} in the program", anns.len(), r.locs.len()));
